@@ -62,11 +62,15 @@ def spec_oracle(cfg, r):
                 out.append(("reject-state", f"transition {k}: state/misfit changed by a rejection"))
         if s["acc_after"] - s["acc_before"] not in (0, 1):
             out.append(("counter", f"transition {k}: counter moved by {s['acc_after'] - s['acc_before']}"))
-        if cfg["kind"] == "rwmh" and not cfg["tune"]:
+        hist_s = list(getattr(r, "hist_s", []) or [])
+        if cfg["kind"] == "rwmh" and (not cfg["tune"] or k < len(hist_s)):
             zj = [j for j in range(lo_, min(hi_, len(vals))) if reqs[j][0] == "normal"]
             z = (numpy.asarray(vals[zj[0]], dtype=float) if zj else numpy.array(cfg["zs"][k])).reshape(-1, 1)      # the normal draw of this transition
             cur = numpy.array(s["cur_before"]).reshape(-1, 1)
             st = (numpy.array(cfg["stepvec"]).reshape(-1, 1) if cfg["stepmode"] == "vector" else cfg["stepsize"])
+            if cfg["tune"]:
+                # a tuned run: the step size of this proposal is the one the sampler recorded for it (times the per-dimension part)
+                st = float(hist_s[k]) * (numpy.array(cfg["stepvec"]).reshape(-1, 1) if cfg["stepmode"] == "vector" else 1.0)
             if not same_vec(common.col(cur + st * 1.0 * z), s["proposed"]):
                 out.append(("rwmh-proposal", f"transition {k}: proposal is not current + stepsize * z"))
     if r.acc != acc:
